@@ -113,6 +113,17 @@ def crashLine (w : World) (name : String) (k t : Nat) (go : Bool) : World × Str
         let w' := if go then w.set name { h with core := some c, disk := d1, subs := 0, lastJournal := [], prevDisk := d1, prevLen := c.tree.length } else w
         (w', shorten s)
 
+/-- first position at which `needle` occurs in `hay` -/
+def findSub (hay needle : Bytes) : Option Nat :=
+  let n := needle.length
+  let rec go : Nat → Bytes → Nat → Option Nat
+    | 0, _, _ => none
+    | fuel+1, h, pos =>
+      if h.length < n then none
+      else if h.take n == needle then some pos
+      else go fuel (h.drop 1) (pos + 1)
+  go (hay.length + 1) hay 0
+
 def coreLine (w : World) (ws : List String) : Option (World × String) :=
   match ws with
   | ["reset"] => some ({}, "bad-op")
@@ -224,6 +235,27 @@ def coreLine (w : World) (ws : List String) : Option (World × String) :=
     (match w.get? name with
      | some h => some (w, s!"T={showBytes h.disk.tree.toList} D={showBytes h.disk.data.toList} B={showBytes h.disk.bitfield.toList} O={showBytes h.disk.oplog.toList}")
      | none => some (w, "nocore"))
+  | ["evcheck", _] => some (w, "ok")
+  | ["pk", name] =>
+    (match (w.get? name).bind (·.core) with
+     | some c => some (w, s!"ok {hex c.publicKey} secret={c.secret.isSome}")
+     | none => some (w, "nocore"))
+  | ["openkp", name] =>
+    -- `Hypercore::new` rejects a key pair together with `open` before touching the storage
+    (match w.get? name with
+     | some _ => some (w, "err")
+     | none => some (w, "nocore"))
+  | ["secretscan", name, seed] =>
+    (match unhex seed, w.get? name with
+     | some sd, some h =>
+       let exp := Sha512.hash sd
+       let needles : List (String × Bytes) := [("seed", sd), ("seed-lo", sd.take 16), ("seed-hi", sd.drop 16),
+         ("expanded-lo", exp.take 32), ("expanded-hi", exp.drop 32)]
+       let files : List (String × Bytes) := [("T", h.disk.tree.toList), ("D", h.disk.data.toList), ("B", h.disk.bitfield.toList), ("O", h.disk.oplog.toList)]
+       let found := files.flatMap fun (sn, f) => needles.filterMap fun (nm, nd) =>
+         (findSub f nd).map fun pos => s!"{nm}@{sn}{pos}"
+       some (w, if found.isEmpty then "clean" else "found " ++ ",".intercalate found)
+     | _, _ => some (w, "nocore"))
   | ["crash", name, k, t] => (match k.toNat?, t.toNat? with
      | some k, some t => some (crashLine w name k t false)
      | _, _ => some (w, "bad-op"))
